@@ -114,11 +114,16 @@ def check_matrix(v):
     if o != ("ok", want):
         bad.append({"what": "parse_matrix differs from the cells of the text", "tags": {"spec": "Matrix", "op": "parse_matrix", "row_names": bool(rows)},
                     "vector": v, "expected": want, "observed": o})
-    o = outcome(lambda: bnp.as_encoded_array(matrix_to_csv(np.array(data, dtype=int), header=cols, sep=sep)).to_string())
-    n += 1
-    if o != ("ok", txt(v["csv"])):
-        bad.append({"what": "matrix_to_csv differs from header and rows joined by the separator", "tags": {"spec": "Matrix", "op": "matrix_to_csv", "row_names": bool(rows)},
-                    "vector": v, "expected": txt(v["csv"]), "observed": o})
+    base = np.array(data, dtype=int)
+    # Layouts (Matrix.tla): the same matrix held row-major, column-major or as a strided window of a larger one
+    wide = np.zeros((2 * base.shape[0], 2 * base.shape[1]), dtype=int)
+    wide[::2, ::2] = base
+    for layout, m in (("row-major", base), ("column-major", np.asfortranarray(base)), ("strided", wide[::2, ::2])):
+        o = outcome(lambda: bnp.as_encoded_array(matrix_to_csv(m, header=cols, sep=sep)).to_string())
+        n += 1
+        if o != ("ok", txt(v["csv"])):
+            bad.append({"what": "matrix_to_csv differs from header and rows joined by the separator", "tags": {"spec": "Matrix", "op": "matrix_to_csv", "row_names": bool(rows), "layout": layout},
+                        "vector": v, "expected": txt(v["csv"]), "observed": o})
     return {"n": n, "nt": [json.dumps(["matrix", data, rows, cols])] if len(data) > 1 or len(cols) > 1 else [], "bad": bad}
 
 
